@@ -256,9 +256,10 @@ def i_JAL(ins, fmap):
 
 def i_JALR(ins, fmap):
     dst, src1, imm = ins.operands
+    target = fmap((src1 + imm) & ~1)
     if dst is not zero:
         fmap[dst] = fmap(pc + ins.length)
-    fmap[pc] = fmap(src1 + imm)
+    fmap[pc] = target
 
 
 def i_BEQ(ins, fmap):
